@@ -57,6 +57,7 @@ pub struct Kernel {
     pub fiemap: Option<String>,
     pub fiemap_split: u64,
     pub fiemap_round_eof: bool,
+    pub fiemap_past_eof: u64,
     pub getdents: String,
     pub wake_any: bool,
 }
@@ -144,6 +145,7 @@ pub struct Sup {
     max_ready: usize,
     explicit_pos: usize,
     match_ctr: BTreeMap<(String, String), u64>,
+    events_dropped: u64,
 }
 
 static mut ALARMED: bool = false;
@@ -259,6 +261,7 @@ impl Sup {
             max_ready: 0,
             explicit_pos: 0,
             match_ctr: BTreeMap::new(),
+            events_dropped: 0,
             cfg,
         };
         if s.cfg.sched.kind == "pct" {
@@ -560,6 +563,11 @@ impl Sup {
                 self.last_lid = lid;
             }
             self.cur = Some(i);
+            // wall-clock guard per inter-syscall segment (pure CPU spin); the length of a run is bounded by steps only
+            unsafe {
+                ALARMED = false;
+                libc::alarm(self.cfg.timeout_s);
+            }
             self.resume(i);
         }
     }
@@ -651,6 +659,9 @@ impl Sup {
         self.kill_all();
         if state == 'R' {
             self.outcome = Some(Outcome::Spin);
+        } else if state == 't' || state == 'T' {
+            // stopped at one of our own stops: the run is merely long; the wall-clock guard acts as a step budget
+            self.outcome = Some(Outcome::Budget);
         } else {
             self.outcome = Some(Outcome::Harness(format!(
                 "thread t{} asleep in the kernel (state {}) in an unmodelled blocking call: {}",
@@ -1447,7 +1458,10 @@ impl Sup {
             "sandbox" => ci.sb || ci.mutating || ci.fields.contains_key("upd"),
             _ => true,
         };
-        if keep {
+        if keep && self.events.len() >= 40_000 {
+            // runaway run: keep the head of the log only (the run ends in a budget violation anyway)
+            self.events_dropped += 1;
+        } else if keep {
             let mut s = s;
             if let Some(o) = s.as_object_mut() {
                 o.insert("role".into(), Value::String(role.into()));
@@ -1790,6 +1804,11 @@ impl Sup {
                 l.1 = (l.1 + 4095) & !4095;
             }
         }
+        if self.cfg.kernel.fiemap_past_eof > 0 {
+            // space preallocated beyond EOF (fallocate KEEP_SIZE): ext4/xfs report it as a (trailing) extent
+            let a = (size + 4095) & !4095;
+            exts.push((a, a + self.cfg.kernel.fiemap_past_eof));
+        }
         let end = fm_start.saturating_add(fm_length);
         let total = exts.len();
         let mut out: Vec<(u64, u64, bool)> = Vec::new();
@@ -1846,6 +1865,7 @@ impl Sup {
             "kernel_fired": self.fired_kernel,
             "calls": self.calls_by_name,
             "roles": roles,
+            "events_dropped": self.events_dropped,
         })
     }
 }
